@@ -199,8 +199,8 @@ def plan(tier):
             {"part": "ase-calcs", "shards": 6, "budget": {"n_examples": 60, "steps": 15}},
         ]
     return [
-        {"part": "model-calcs", "shards": 10, "budget": {"n_examples": 2500, "steps": 40}},
-        {"part": "ase-calcs", "shards": 6, "budget": {"n_examples": 600, "steps": 30}},
+        {"part": "model-calcs", "shards": 10, "budget": {"n_examples": 5000, "steps": 40}},
+        {"part": "ase-calcs", "shards": 6, "budget": {"n_examples": 1200, "steps": 30}},
     ]
 
 
